@@ -182,6 +182,9 @@ var (
 // makes the handler send data frames before it fails.
 var (
 	msgErrText      = &gt.Message{Code: 5, Payload: []byte("who"), Count: 2}
+	msgErrAfter1    = &gt.Message{Code: 5, Payload: []byte("one"), Count: 1}
+	msgCount1       = &gt.Message{Payload: []byte("c1"), Count: 1}
+	msgCount2       = &gt.Message{Payload: []byte("c2"), Count: 2}
 	msgErrBin       = &gt.Message{Code: 3, Payload: []byte("k\xff\xfe")}
 	msgErrBinAfter  = &gt.Message{Code: 3, Payload: []byte("k\xff\xfe"), Count: 2}
 	msgErrBinDetail = &gt.Message{Code: 3, Payload: []byte{0xc3, 0x28}, Count: 1, ErrorDetails: []*anypb.Any{mustAny(wrapperspb.String("d1"))}}
@@ -271,6 +274,13 @@ func init() {
 		{"json-same", jsonOf(msgSame)},
 		{"json-long", jsonOf(msgLong)},
 		{"json-short", []byte(`{}`)},
+		// handler outcomes by number of reply messages: with these, the bodies make a
+		// server-streaming handler send 0, 1, 2 and 3 messages and then succeed
+		// (frame-empty-msg, frame-count1, frame-count2, frame1) and 0, 1 and 2 messages
+		// and then fail (frame1-err, frame-err-after-1, frame-err-text-after-data)
+		{"frame-count1", framed(msgCount1)},
+		{"frame-count2", framed(msgCount2)},
+		{"frame-err-after-1", framed(msgErrAfter1)},
 	}
 }
 
@@ -289,10 +299,11 @@ type Case struct {
 	Hdr       []hv   `json:"hdr"`
 	BodyName  string `json:"body_name"`
 	BodyHex   string `json:"body_hex"`
+	Writer    string `json:"writer,omitempty"` // name of the ResponseWriter the server is handed (writer.go); empty = the plain recorder
 }
 
 func (c *Case) key() string {
-	return fmt.Sprintf("%s|%s|%s|%s|%s|%s", c.Cfg, c.Method, c.Path, c.CTName, c.HdrName, c.BodyName)
+	return fmt.Sprintf("%s|%s|%s|%s|%s|%s|%s", c.Cfg, c.Method, c.Path, c.CTName, c.HdrName, c.BodyName, c.Writer)
 }
 
 func cfgByName(n string) *cfgVal {
@@ -304,11 +315,13 @@ func cfgByName(n string) *cfgVal {
 	return nil
 }
 
-// index tuple: cfg, path, method, ct, hdr, body
-type tuple [6]int
+// index tuple: cfg, path, method, ct, hdr, body, writer
+type tuple [7]int
 
-func axisSizes() [6]int {
-	return [6]int{len(cfgs), len(paths), len(methods), len(cts), len(hdrs), len(bodies)}
+const nAxes = 7
+
+func axisSizes() [nAxes]int {
+	return [nAxes]int{len(cfgs), len(paths), len(methods), len(cts), len(hdrs), len(bodies), len(writers)}
 }
 
 func indexOfCT(name string) int {
@@ -345,9 +358,10 @@ func baseBody(kind string) int {
 }
 
 // valid reports whether the tuple denotes a request of the grammar (the
-// "outside-base" path only exists for configurations with a base path).
+// "outside-base" path only exists for configurations with a base path, a
+// decorating Mux only for the HandleServices configurations).
 func (t tuple) valid() bool {
-	return !(paths[t[1]].Abs && cfgs[t[0]].Base == "")
+	return !(paths[t[1]].Abs && cfgs[t[0]].Base == "") && !(writers[t[6]].Place == placeMux && !cfgs[t[0]].Mux)
 }
 
 func (t tuple) toCase() *Case {
@@ -356,6 +370,10 @@ func (t tuple) toCase() *Case {
 	if p.Abs {
 		full = p.Rel
 	}
-	return &Case{Kind: "request", Cfg: cfg.Name, Method: methods[t[2]], PathName: p.Name, Path: full,
+	c := &Case{Kind: "request", Cfg: cfg.Name, Method: methods[t[2]], PathName: p.Name, Path: full,
 		CTName: ct.Name, CT: ct.V, CTPresent: ct.Present, HdrName: h.Name, Hdr: h.H, BodyName: b.Name, BodyHex: hex.EncodeToString(b.B)}
+	if t[6] != 0 {
+		c.Writer = writers[t[6]].Name
+	}
+	return c
 }
